@@ -8,6 +8,7 @@ sequential program `[func(read(f)) for f in files]` (written here, independent
 of typhon) plus exactly-once, in-flight bound, exception and warning rules.
 """
 import os
+import pickle
 import re
 import shutil
 import warnings
@@ -17,6 +18,7 @@ from sim.kernel import Sim, make_policy, StepCap, Deadlock
 from sim.executors import SimPoolBase, SimThreadPool, SimProcessPool
 from sim.runner import new_result, scratch_root
 from sim.seams import patched, NoGC, import_typhon, fresh_dir
+from sim.fsseam import SimLocalFS, HOOK as _FS_HOOK
 from sim import digest_of
 
 PROPERTY_ID = "C10"
@@ -114,7 +116,10 @@ def _stall(st, what, key):
 
 def reader(file_info, tag=None):
     st = ST
-    key = _key(file_info.path)
+    with open(file_info.path, "rb") as f:
+        key = f.read().decode("ascii", "replace")
+    if key[:2] not in ("a:", "b:"):
+        key = _key(file_info.path)
     st.reads[key] = st.reads.get(key, 0) + 1
     st.sim.event("read-start", key)
     _stall(st, "r", key)
@@ -124,6 +129,14 @@ def reader(file_info, tag=None):
         raise InjectedReadError(5, f"injected EIO reading {key}")
     st.sim.event("read-end", key)
     return {"file": key, "tag": tag}
+
+
+def out_writer(data, file_info):
+    st = ST
+    st.sim.yield_("out-writer")
+    with open(file_info.path, "wb") as f:
+        pickle.dump(_norm(_plain(data)), f, protocol=4)
+    st.sim.yield_("out-writer:done")
 
 
 def user_func(*args, **kwargs):
@@ -179,6 +192,9 @@ def gen_workload(tape):
     w["op"] = tape.pick(["imap", "map", "icollect", "collect", "align"], "op")
     w["n"] = tape.count(1, 8, "n", (3, 4))
     w["layout"] = tape.pick(["flat", "daily"], "layout")
+    # a compression suffix: every read goes through typhon's transparent
+    # decompression (the handler then sees a temporary copy)
+    w["ext"] = tape.pick([".dat", ".dat", ".dat.gz"], "ext")
     w["gap_h"] = tape.pick([1, 1, 7, 30], "gap")      # hours between files
     w["worker_type"] = tape.pick(["thread", "process"], "wtype")
     w["max_workers"] = tape.pick([2, 1, 3, 4, None, 6, 8], "workers")
@@ -195,6 +211,8 @@ def gen_workload(tape):
             opts["kwargs"] = {"kw": 1}
         if opts["on_content"] and tape.flag("read_args", 1, 3):
             opts["read_args"] = {"tag": "T"}
+        # results written to an output fileset by the workers themselves
+        opts["output"] = tape.flag("output", 1, 4)
     elif w["op"] in ("collect", "icollect"):
         opts["on_content"] = True
         opts["return_info"] = tape.flag("return_info", 1, 2)
@@ -296,14 +314,14 @@ def _ftime(i, w):
 
 def _fname(i, w):
     t = _ftime(i, w)
-    return t.strftime("%Y%m%d_%H%M") + ".dat"
+    return t.strftime("%Y%m%d_%H%M") + w.get("ext", ".dat")
 
 
 def _template(root, side, w):
     if w["layout"] == "flat":
-        return f"{root}/{side}/{{year}}{{month}}{{day}}_{{hour}}{{minute}}.dat"
+        return f"{root}/{side}/{{year}}{{month}}{{day}}_{{hour}}{{minute}}" + w.get("ext", ".dat")
     return f"{root}/{side}/{{year}}-{{month}}-{{day}}/" \
-           f"{{year}}{{month}}{{day}}_{{hour}}{{minute}}.dat"
+           f"{{year}}{{month}}{{day}}_{{hour}}{{minute}}" + w.get("ext", ".dat")
 
 
 def _fpath(root, side, i, w):
@@ -313,10 +331,17 @@ def _fpath(root, side, i, w):
     return f"{root}/{side}/{t:%Y-%m-%d}/{_fname(i, w)}"
 
 
-def _touch(path):
+def _touch(path, key):
+    """The file holds its own key: the reader identifies a file by what it
+    reads (under transparent decompression it is handed a temporary copy)."""
     os.makedirs(os.path.dirname(path), exist_ok=True)
-    with open(path, "wb"):
-        pass
+    if path.endswith(".gz"):
+        import gzip
+        with gzip.open(path, "wb") as f:
+            f.write(key.encode())
+    else:
+        with open(path, "wb") as f:
+            f.write(key.encode())
 
 
 # ----------------------------------------------------------- reference model
@@ -369,6 +394,12 @@ def model_sequence(w, items):
             value = None
         else:
             value = {"args": args, "kwargs": dict(opts.get("kwargs") or {})}
+        if opts.get("output"):
+            # the worker stores a non-None value under the name generated from
+            # the (first) file's times and reports whether it did
+            if value is not None:
+                w.setdefault("_outs", {})[keys_l[0]] = value
+            value = value is not None
         out.append(("value", _ret(opts, info_plain, value)))
     return out, nwarn
 
@@ -420,17 +451,24 @@ def run_one(tape, only=None):
     try:
         n = w["n"]
         for i in range(n):
-            _touch(_fpath(root, "a", i, w))
+            _touch(_fpath(root, "a", i, w), f"a:{_fname(i, w)}")
         for j in range(w.get("m", 0)):
-            _touch(_fpath(root, "b", j, w))
+            _touch(_fpath(root, "b", j, w), f"b:{_fname(j, w)}")
         if w["op"] == "align" and not w.get("m"):
             pass
         handler = FileHandler(reader=reader)
         fs_a = FileSet(_template(root, "a", w), handler=handler, name="A",
                        time_coverage="1 hour", worker_type=w["worker_type"],
-                       max_threads=3, max_processes=4)
+                       max_threads=3, max_processes=4,
+                       temp_dir=os.path.join(root, "tmp"))
         fs_b = FileSet(_template(root, "b", w), handler=handler, name="B",
-                       time_coverage="1 hour")
+                       time_coverage="1 hour", temp_dir=os.path.join(root, "tmp"))
+        out_fs = None
+        if w["opts"].get("output"):
+            sim.probe("output_fileset")
+            out_fs = FileSet(
+                f"{root}/out/{{year}}-{{month}}-{{day}}/{{hour}}{{minute}}.res",
+                handler=FileHandler(writer=out_writer), name="OUT", fs=SimLocalFS())
         infos_a = list(fs_a.find()) if n else []
         infos_b = list(fs_b.find()) if w.get("m") else []
         # the model's own file list (independent of find): by construction
@@ -447,13 +485,16 @@ def run_one(tape, only=None):
             with warnings.catch_warnings(record=True) as wlist:
                 warnings.simplefilter("always")
                 try:
-                    outcome["got"] = _drive(w, fs_a, fs_b, infos_a, infos_b, outcome)
+                    outcome["got"] = _drive(w, fs_a, fs_b, infos_a, infos_b, outcome,
+                                            out_fs)
                 finally:
                     outcome["warnings"] = [
                         str(x.message) for x in wlist
                         if issubclass(x.category, RuntimeWarning)
                         and "Could not read the file" in str(x.message)]
 
+        os.makedirs(os.path.join(root, "tmp"))
+        _FS_HOOK[0] = lambda label: sim.yield_(label) if sim.me() is not None else None
         with patched((fsmod, "ThreadPoolExecutor", SimThreadPool),
                      (fsmod, "ProcessPoolExecutor", SimProcessPool),
                      (fsmod, "gc", NoGC)):
@@ -472,8 +513,19 @@ def run_one(tape, only=None):
             except BaseException as e:  # noqa: anything else the caller saw
                 outcome["end"] = "raised"
                 outcome["exc"] = e
+        outcome["tmp_left"] = sorted(os.listdir(os.path.join(root, "tmp")))
+        outcome["out_files"] = {}
+        for dp, _, fn in os.walk(os.path.join(root, "out")):
+            for f in fn:
+                with open(os.path.join(dp, f), "rb") as fh:
+                    try:
+                        outcome["out_files"][os.path.relpath(
+                            os.path.join(dp, f), os.path.join(root, "out"))] = pickle.load(fh)
+                    except Exception as e:  # noqa
+                        outcome["out_files"][f] = f"unreadable: {e}"
         violations = _oracle(w, st, sim, pools, outcome, policy)
     finally:
+        _FS_HOOK[0] = None
         ST = None
         SimPoolBase.sim = None
         SimPoolBase.registry = None
@@ -512,7 +564,7 @@ def policy_plain(p):
             for k, v in p.items() if not callable(v)}
 
 
-def _drive(w, fs_a, fs_b, infos_a, infos_b, outcome):
+def _drive(w, fs_a, fs_b, infos_a, infos_b, outcome, out_fs=None):
     """Runs inside the simulated caller task."""
     op, opts = w["op"], dict(w["opts"])
     kw = {}
@@ -548,6 +600,8 @@ def _drive(w, fs_a, fs_b, infos_a, infos_b, outcome):
         kw["error_to_warning"] = True
     if op in ("map", "imap"):
         kw["worker_type"] = w["worker_type"]
+        if opts.pop("output", None):
+            kw["output"] = out_fs
         call = dict(func=user_func, **{k: v for k, v in opts.items()}, **kw)
         if op == "map":
             return _plain(fs_a.map(**call))
@@ -735,6 +789,21 @@ def _oracle(w, st, sim, pools, outcome, policy):
         if st.func_calls != wantf:
             V.append(_viol(f"C10/{op}/func-count",
                            f"func calls {st.func_calls} expected {wantf}"))
+    # ---- output fileset: exactly the non-None results, under their names ------
+    if opts.get("output"):
+        idx = {f"a:{_fname(i, w)}": i for i in range(w["n"])}
+        want_out = {}
+        for k, v in wm.get("_outs", {}).items():
+            t = _ftime(idx[k], w)
+            want_out[f"{t:%Y-%m-%d}/{t:%H%M}.res"] = _norm(v)
+        if outcome.get("out_files") != want_out:
+            V.append(_viol(
+                f"C10/{op}/output-files",
+                f"output fileset holds {outcome.get('out_files')!r}, expected "
+                f"{want_out!r}"))
+    if outcome.get("tmp_left"):
+        V.append(_viol(f"C10/{op}/temp-debris",
+                       f"left in the temporary directory: {outcome['tmp_left'][:3]}"))
     # ---- warnings ----------------------------------------------------------
     if len(outcome.get("warnings", [])) != nwarn:
         V.append(_viol(f"C10/{op}/warning-count",
